@@ -6,6 +6,7 @@ import CookModel.Lemmas.CollectorRefIff
 import CookModel.Lemmas.CollectorBack
 import CookModel.Lemmas.CollectorInterRef
 import CookModel.Lemmas.CollectorStrictWB
+import CookModel.Lemmas.CollectorShape
 /-
   C06  The recipe model is referentially consistent.
 
@@ -506,6 +507,30 @@ theorem C06_reference_name_matches (env : Env) (input : Str) (c : Col α)
   · obtain ⟨_, d, h2, hn, _⟩ := C06_cookware_reference_backlinks env input _ c hev h k cw hk t ht
     exact ⟨d, h2, by simpa [nameEq] using hn⟩
 
+/-- the shape of every ingredient relation of the table (used by a step or not): a definition carries no
+    reference target, a reference carries one (`Ingredient::references_to` unwraps it), and a section
+    target addresses an existing section -/
+def RelationsShaped (c : Col α) : Prop :=
+  ∀ (k : Nat) (ig : Ingredient (ScalableValue α)), c.ingredients[k]? = some ig →
+    ((∃ rf b, ig.relation = ⟨.definition rf b, none⟩) ∨ (∃ i tg, ig.relation = ⟨.reference i, some tg⟩)) ∧
+    ∀ i, ig.relation = ⟨.reference i, some .section⟩ → i < c.sections.length
+
+/-- for ANY list of `EvOK` events: the relations of the returned ingredient table are well shaped -/
+theorem C06_relations_shaped_of_events (env : Env) (input : Str) (evs : List (Ev α)) (c : Col α)
+    (hev : ∀ ev ∈ evs, EvOK ev) (h : (parseEventsLoop env input evs {}).output = some c) : RelationsShaped c := by
+  have hf := parseEventsLoop_shape env input evs {} c (Inv.init env) ShapeInv.init hev h
+  exact fun k ig hk => ⟨hf.shape k ig hk, hf.secRange k ig hk⟩
+
+/-- **Every reference has a target kind, every section target exists.**  In every recipe `parse`
+    returns (valid or not), for EVERY ingredient of the table — also one that no step uses, e.g. added in
+    `[mode]: components`: a definition has `reference_target = None`, a reference has
+    `reference_target = Some(_)` (so `Ingredient::references_to`, which unwraps it, cannot panic, and
+    each reference falls under exactly one of the ingredient / step / section clauses), and a section
+    target is an index into `sections`. -/
+theorem C06_relations_shaped (env : Env) (input : Str) (c : Col α)
+    (h : (parseRecipe (α := α) env input).output = some c) : RelationsShaped c :=
+  C06_relations_shaped_of_events env input _ c (pullEvents_evOK env.cs env.ext input) h
+
 /-- **C06, every clause.**  Every recipe `parse` returns — for every input, extension set and converter
     environment, valid or alongside errors — satisfies `RecipeInv` (item indices in range, ingredient
     references point to an earlier definition that lists them back exactly once, nothing empty, steps
@@ -513,12 +538,13 @@ theorem C06_reference_name_matches (env : Env) (input : Str) (c : Col α)
     (`OrdFinal`); cookware references point to an earlier definition that lists them back exactly once;
     every `referenced_from` entry is a later reference to the definition listing it; a step reference
     addresses an earlier step of the same section and a section reference an earlier section; a
-    reference has the name of its definition up to case; and when the report has no error a component
+    reference has the name of its definition up to case; every reference carries its target kind and every
+    section target exists; and when the report has no error a component
     is a reference exactly when it carries the reference modifier. -/
 theorem C06_holds_full (env : Env) (input : Str) (c : Col Rat)
     (h : (parseRecipe (α := Rat) env input).output = some c) :
     RecipeInv c ∧ OrdFinal c ∧ CookwareRefsOK c ∧ BacklinksSound c ∧ StepRefsOK c ∧ SectionRefsOK c ∧
-    RefNamesMatch env c ∧
+    RefNamesMatch env c ∧ RelationsShaped c ∧
     ((∀ d ∈ (parseRecipe (α := Rat) env input).diags.toList, d.sev ≠ Sev.error) →
       (∀ (k : Nat) (ig : Ingredient (ScalableValue Rat)), c.ingredients[k]? = some ig →
         (ig.relation.relation.isReference = true ↔ ig.modifiers.contains Modifiers.REF = true)) ∧
@@ -527,7 +553,7 @@ theorem C06_holds_full (env : Env) (input : Str) (c : Col Rat)
   ⟨C06_holds env input c h, (C06_holds_extended env input c h).2.1, C06_cookware_references env input c h,
    C06_backlinks_sound env input c h, C06_step_reference_target env input c h,
    C06_section_reference_target env input c h, C06_reference_name_matches env input c h,
-   (C06_holds_extended env input c h).2.2⟩
+   C06_relations_shaped env input c h, (C06_holds_extended env input c h).2.2⟩
 
 /-! non-vacuity of the new predicates and hypotheses -/
 
@@ -577,6 +603,21 @@ example : ¬ SectionRefsOK (exRecipe ⟨.reference 1, some .section⟩) := by
   intro h
   have := h 1 _ rfl 2 _ rfl 0 (by simp) _ rfl 1 rfl
   omega
+
+-- a reference without target kind, or a section target past the end, is rejected
+example : RelationsShaped (exRecipe ⟨.reference 1, some .section⟩) := by
+  intro k ig hk
+  have hk2 : k < 1 := lt_size_of_getElem? hk
+  obtain rfl : k = 0 := by omega
+  cases hk
+  exact ⟨Or.inr ⟨_, _, rfl⟩, fun i hr => by cases hr; decide⟩
+example : ¬ RelationsShaped (exRecipe ⟨.reference 0, none⟩) := by
+  intro h
+  rcases (h 0 _ rfl).1 with ⟨_, _, hc⟩ | ⟨_, _, hc⟩ <;> cases hc
+example : ¬ RelationsShaped (exRecipe ⟨.reference 2, some .section⟩) := by
+  intro h
+  have := (h 0 _ rfl).2 2 rfl
+  revert this; decide
 
 -- a definition that lists index 1, and index 1 refers back to it: sound; listing itself is not
 example : BacklinksSound (α := Rat)
